@@ -23,6 +23,13 @@ def start_trees(ctx, n):
             r = impl_parse(gens.valid_expr(rnd, rnd.randint(2, 3), eq=True))
             if r[0] == "OK" and 3 <= P.sx_size(r[1]) <= 25:
                 out.append(r[1])
+        elif k < 0.58:
+            # equations with a parenthesised sum or difference UNDER a subtraction / a product on one side (addends that are not top-level)
+            a, b, c, d = (P.term(rnd) for _ in range(4))
+            side = rnd.choice([("sub", a, ("add", b, c)), ("sub", a, ("sub", b, c)), ("add", a, ("sub", b, ("add", c, d))), ("sub", ("add", a, b), ("add", c, d)),
+                               ("mul", P.C(rnd.choice([2, 3, -4])), ("add", b, c))])
+            other = rnd.choice([P.C(rnd.choice([1, 2, 7, -3])), d, ("add", d, P.C(5))])
+            out.append(("eq", side, other) if rnd.random() < 0.6 else ("eq", other, side))
         elif k < 0.8:
             t = P.like_pair(rnd)
             out.append(("add", t, P.like_pair(rnd)) if rnd.random() < 0.5 else t)
